@@ -39,8 +39,8 @@ PROPS = {
     "C06": {
         "tests": ["TestC06"],
         "design_ref": "DESIGN.md §3.6",
-        "level_text": "Theorems C06_builder_ttls_minimal_nonzero (WithTTL(ctx,ttl,true) repeated keeps the smallest non-zero TTL, negative ones included), C06_cell_changes_only_in_builder / C06_other_gets_do_not_touch_the_cell (the TTL cell of a Get changes only when its builder returns, by exactly the builder's updates; the stale re-store and all other steps leave it alone; the background build starts with the caller's cell, key and SkipRead flag), C06_store_ttls (every backend write is the final store with the cell's TTL, 0 = backend default, or the re-store of the stale value with UpdateTTL), C06_no_cell_nothing_to_update, C06_skip_still_stores — Coq, no axioms. Correspondence: the wrapping backend records TTL(ctx) of every Write, builders record Err/Done/Deadline/Value of their context on every Get path incl. cancelled callers; predicate c06_get_ok on every trace.",
-        "level_note": "Trusted: as C01; interpretations O3 (no TTL cell in the caller's context: builder updates have nothing to update) and O6 (a SkipRead Get that finds the key locked accepts the owner's result). Partial: cancellation / deadline / values of the detached background context are runtime behaviour of context.Context that the model does not represent; they are observed by the correspondence run only.",
+        "level_text": "Theorems C06_builder_ttls_minimal_nonzero (WithTTL(ctx,ttl,true) repeated keeps the smallest non-zero TTL, negative ones included), C06_cell_changes_only_in_builder / C06_other_gets_do_not_touch_the_cell (the TTL cell of a Get changes only when its builder returns, by exactly the builder's updates; the stale re-store and all other steps leave it alone; the background build starts with the caller's cell, key and SkipRead flag), C06_store_ttls (every backend write is the final store with the cell's TTL, 0 = backend default, or the re-store of the stale value with UpdateTTL), C06_no_cell_nothing_to_update, C06_skip_still_stores; C06_detached_context (theories/Ctx.v models a context as a chain of value / cancel / deadline layers with the library's detachedContext as a layer of its own: for EVERY caller chain, every set of cancel functions already called, every instant and any further value layers, the background builder's context has Err()=nil, Done()=nil, no deadline, and resolves every key as the caller's context does), C06_cancellation_is_permanent, C06_context_observation — Coq, no axioms. Correspondence: the wrapping backend records TTL(ctx) of every Write; builders record Err (entry and exit), Done, Deadline and Value of their context on every Get path, with callers that cancel before the call, in the middle of the build or after return, or carry a 1h / 5s deadline, and Ctx.v predicts each of these observations from the caller's chain, the cancellations so far and the fake clock; predicates c06_get_ok and ctxobs_prop on every trace.",
+        "level_note": "Trusted: as C01; interpretations O3 (no TTL cell in the caller's context: builder updates have nothing to update) and O6 (a SkipRead Get that finds the key locked accepts the owner's result). The standard library's WithValue / WithCancel / WithDeadline are modelled by their documented contract (Ctx.v), the library's detachedContext by its four methods.",
     },
     "C05": {
         "tests": ["TestC05"],
